@@ -62,9 +62,9 @@ void on_terminate() {
   _exit(79);
 }
 
-struct Op { std::string k; int t = 1, a = 0, b = 0; };
+struct Op { std::string k; int t = 1, a = 0, b = 0; bool alt = false; };   // alt: use the size-only overload (range 0..n-1)
 std::string op_json(const Op& o) {
-  return "{\"k\":\"" + o.k + "\",\"t\":" + std::to_string(o.t) + ",\"a\":" + std::to_string(o.a) + ",\"b\":" + std::to_string(o.b) + "}";
+  return "{\"k\":\"" + o.k + "\",\"t\":" + std::to_string(o.t) + ",\"a\":" + std::to_string(o.a) + ",\"b\":" + std::to_string(o.b) + (o.alt ? ",\"alt\":1" : "") + "}";
 }
 // minimal reader for the flat alphabet lines written by TLC: {"k":"VAdd","t":1,"a":0,"b":0}
 bool parse_op(const std::string& line, Op& o) {
@@ -82,18 +82,21 @@ template <> struct Traits<VectorWithOffset<int>> {
   typedef int elem; static const bool numeric = false;
   static const char* tag() { return "VI"; }
   static VectorWithOffset<int>* make(int lo, int hi) { return new VectorWithOffset<int>(lo, hi); }
+  static VectorWithOffset<int>* make_sz(int n) { return new VectorWithOffset<int>(n); }
   static VectorWithOffset<int>* view(int lo, int hi, shared_ptr<int[]> p) { return new VectorWithOffset<int>(lo, hi, p); }
 };
 template <> struct Traits<NumericVectorWithOffset<float, float>> {
   typedef float elem; static const bool numeric = true;
   static const char* tag() { return "NF"; }
   static NumericVectorWithOffset<float, float>* make(int lo, int hi) { return new NumericVectorWithOffset<float, float>(lo, hi); }
+  static NumericVectorWithOffset<float, float>* make_sz(int n) { return new NumericVectorWithOffset<float, float>(n); }
   static NumericVectorWithOffset<float, float>* view(int lo, int hi, shared_ptr<float[]> p) { return new NumericVectorWithOffset<float, float>(lo, hi, p); }
 };
 template <> struct Traits<Array<1, float>> {
   typedef float elem; static const bool numeric = true;
   static const char* tag() { return "A1"; }
   static Array<1, float>* make(int lo, int hi) { return new Array<1, float>(lo, hi); }
+  static Array<1, float>* make_sz(int n) { return new Array<1, float>(IndexRange<1>(n)); }
   static Array<1, float>* view(int lo, int hi, shared_ptr<float[]> p) { return new Array<1, float>(IndexRange<1>(lo, hi), p); }
 };
 
@@ -110,6 +113,11 @@ template <class V> struct Sys {
   }
 };
 
+// sum(), find_max(), find_min() exist for Array<1> only
+template <class V> struct Aggregates { static void add(vh::Json&, const V&) {} };
+template <> struct Aggregates<Array<1, float>> {
+  static void add(vh::Json& j, const Array<1, float>& v) { j.num("sum", nd::enc(v.sum())).num("mx", nd::enc(v.find_max())).num("mn", nd::enc(v.find_min())).num("sza", (long long)v.size_all()); }
+};
 // what the public API of one vector answers (observation only)
 template <class V, class T> std::string observe_vec(const V& v, const T* blk, int K) {
   const int lo = v.get_min_index(), hi = v.get_max_index();
@@ -128,6 +136,7 @@ template <class V, class T> std::string observe_vec(const V& v, const T* blk, in
   j.num("lo", lo).num("hi", hi).num("n", n).num("len", v.get_length()).boolean("em", v.empty()).arr("v", byidx).arr("it", it).arr("rit", rit)
       .num("cap", (long long)v.capacity()).num("cmin", n > 0 || v.capacity() > 0 || true ? v.get_capacity_min_index() : 0)
       .num("cell", cell).boolean("own", v.owns_memory_for_data());
+  Aggregates<V>::add(j, v);
   return j.done();
 }
 template <class V> std::string observe(const Sys<V>& y) {
@@ -169,7 +178,7 @@ template <class V> bool has_op(const std::string& k) {
 template <class V> bool callable(const Sys<V>& y, const Op& op) {
   if (!has_op<V>(op.k)) return false;
   if (op.k == "View") return op.b >= op.a && op.b - op.a + 1 <= y.K;
-  if (op.k == "VDiv" && !Traits<V>::numeric) {
+  if ((op.k == "VDiv" || op.k == "BDiv") && !Traits<V>::numeric) {
     const V& O = *y.s[2 - op.t];
     for (auto p = O.begin(); p != O.end(); ++p) if (*p == 0) return false;
   }
@@ -186,16 +195,16 @@ template <class V> Outcome execute(Sys<V>& y, const Op& op) {
   out.err = vh::threw([&] {
     V& Tv = *y.s[ti]; V& Ov = *y.s[oi];
     if (k == "Default") y.s[ti].reset(new V());
-    else if (k == "Construct") y.s[ti].reset(Traits<V>::make(op.a, op.b));
+    else if (k == "Construct") y.s[ti].reset(op.alt ? Traits<V>::make_sz(op.b + 1) : Traits<V>::make(op.a, op.b));
     else if (k == "View") y.s[ti].reset(Traits<V>::view(op.a, op.b, y.blk));
     else if (k == "Copy") { std::unique_ptr<V> n(new V(Ov)); y.s[ti] = std::move(n); }
     else if (k == "Move") { std::unique_ptr<V> n(new V(std::move(Ov))); y.s[ti] = std::move(n); }
     else if (k == "Swap") { swap(Tv, Ov); }
     else if (k == "Assign") Tv = Ov;
     else if (k == "SelfAssign") { V& alias = Tv; Tv = alias; }
-    else if (k == "Resize") Tv.resize(op.a, op.b);
+    else if (k == "Resize") { if (op.alt) Tv.resize((unsigned)(op.b + 1)); else Tv.resize(op.a, op.b); }
     else if (k == "GrowBy") Tv.grow(Tv.get_min_index() - op.a, Tv.get_max_index() + op.b);
-    else if (k == "Reserve") Tv.reserve(op.a, op.b);
+    else if (k == "Reserve") { if (op.alt) Tv.reserve((unsigned)(op.b + 1)); else Tv.reserve(op.a, op.b); }
     else if (k == "SetOffset") { if (op.b == 1) Tv.set_min_index(op.a); else Tv.set_offset(op.a); }
     else if (k == "Recycle") Tv.recycle();
     else if (k == "Fill") Tv.fill((T)op.a);
@@ -212,6 +221,10 @@ template <class V> Outcome execute(Sys<V>& y, const Op& op) {
     else if (k == "VSub") Tv -= Ov;
     else if (k == "VMul") Tv *= Ov;
     else if (k == "VDiv") Tv /= Ov;
+    else if (k == "BAdd") { std::unique_ptr<V> n(new V(Tv + Ov)); y.s[ti] = std::move(n); }
+    else if (k == "BSub") { std::unique_ptr<V> n(new V(Tv - Ov)); y.s[ti] = std::move(n); }
+    else if (k == "BMul") { std::unique_ptr<V> n(new V(Tv * Ov)); y.s[ti] = std::move(n); }
+    else if (k == "BDiv") { std::unique_ptr<V> n(new V(Tv / Ov)); y.s[ti] = std::move(n); }
     else if (k == "MemSet") y.blk[op.a - 1] = (T)op.b;
     else if (k == "Nop") {}
     else if (!NumOps<V, Traits<V>::numeric>::apply(y, op, Tv, Ov)) { fprintf(stderr, "unknown op %s\n", k.c_str()); _exit(3); }
@@ -311,13 +324,15 @@ template <class V> Op random_op(vh::Rng& rng, const Sys<V>& y, bool calm) {
   else if (r < 74) { o.k = "Get"; o.a = rng.range(0, 9); }
   else if (r < 76) { o.k = "PtrSet"; o.a = rng.range(0, 9); o.b = rng.range(-9, 9); }
   else if (r < 78) { o.k = rng.coin() ? "ThrLo" : "ThrUp"; o.a = rng.range(-3, 6); }
-  else if (r < 88) { static const char* ks[] = { "VAdd", "VSub", "VMul", "VDiv" }; o.k = ks[rng.range(0, 3)]; }
+  else if (r < 88) { static const char* ks[] = { "VAdd", "VSub", "VMul", "VDiv", "BAdd", "BSub", "BMul", "BDiv" }; o.k = ks[rng.range(0, 7)]; }
   else if (r < 94) { static const char* ks[] = { "SAdd", "SSub", "SMul", "SDiv" }; o.k = ks[rng.range(0, 3)]; o.a = rng.range(-2, 3); if ((o.k == "SDiv") && o.a == 0) o.a = 2; }
   else if (r < 96) { o.k = "Sapyb"; o.a = rng.range(-2, 2); o.b = rng.range(-2, 2); }
   else if (r < 97) o.k = "XapybV";
   else if (r < 100) { o.k = "MemSet"; o.t = 1; o.a = rng.range(1, y.K); o.b = rng.range(-9, 9); }
   else if (r == 200) { o.k = "Iota"; o.a = rng.range(0, 5); }
   else { o.k = "Fill"; o.a = rng.range(0, 3); }
+  // the overloads taking a size only: V(n), resize(n), reserve(n)  ==  range 0..n-1
+  if ((o.k == "Construct" || o.k == "Resize" || o.k == "Reserve") && rng.range(0, 3) == 0) { o.a = 0; o.b = rng.range(0, 5); o.alt = true; }
   return o;
 }
 
